@@ -44,13 +44,15 @@ def configs(tier):
         out.append(("rule", fs, sh, 1))
     for fs in [(1,), (1, 2), (1, 2, 3), (2,), (0.5, 1.0)]:
         out.append(("rule", fs, None, 2))
-        if tier == "thorough":
+        if tier == "thorough" or fs in ((1,), (1, 2)):
             out.append(("rule", fs, None, 3))
             out.append(("rule", fs, None, 4))
     out.append(("multi", ((1,), (1,)), None, (1, 1)))
     out.append(("multi", ((1, 2), (1,)), None, (1, 1)))
     out.append(("multi", ((1,), (1, 2)), None, (2, 1)))
     out.append(("multi", ((1, 2), (2, 4)), None, (1, 1)))
+    out.append(("multi", ((1,), (1,)), None, (4, 1)))
+    out.append(("multi", ((1,), (1, 2)), None, (2, 2)))
     seen, uniq = set(), []
     for c in out:
         if c not in seen:
